@@ -342,6 +342,10 @@ class FilesystemStorageBackend(StorageBackendBase):
             metadata_config_path = config_path
         self.metadata_config_path = metadata_config_path
 
+        # memory_cache_mb is a documented configuration option of this backend
+        if memory_cache_mb is None:
+            memory_cache_mb = config.get("memory_cache_mb", None)
+
         data_source = _FilesystemDataSource(self.config_path)
         metadata_source = DataSourceMetadataSource(
             _FilesystemDataSource(self.metadata_config_path)
